@@ -43,6 +43,7 @@ func TestRun(t *testing.T) {
 	cryptotest.SetGlobalRandom(t, s.Seed^0xbb67ae8584caa73b)
 	rand.Seed(int64(s.Seed ^ 0x3c6ef372fe94f82b))
 
+	StartProfile()
 	synctest.Test(t, func(t *testing.T) {
 		RunInBubble(&s, outPath, wallStart)
 	})
